@@ -43,6 +43,8 @@ struct MessageAdmission<'a>(&'a ActorProperties);
 impl Drop for MessageAdmission<'_> {
     fn drop(&mut self) {
         let previous = self.0.message_admission.fetch_sub(1, Ordering::AcqRel);
+        #[cfg(feature = "verif")]
+        crate::verif::point(crate::verif::pt::TICKET_AFTER_SUB, crate::verif::id_u64(&self.0.id), previous as u64);
         debug_assert_ne!(previous & MESSAGE_ADMISSION_COUNT_MASK, 0);
         if previous & MESSAGE_ADMISSION_CLOSED != 0 && previous & MESSAGE_ADMISSION_COUNT_MASK == 1
         {
@@ -149,6 +151,8 @@ impl ActorProperties {
     }
 
     pub(crate) fn send_signal(&self, signal: Signal) -> Result<(), MessagingErr<()>> {
+        #[cfg(feature = "verif")]
+        crate::verif::point(crate::verif::pt::SEND_SIGNAL, crate::verif::id_u64(&self.id), 0);
         self.signal
             .lock()
             .unwrap()
@@ -196,6 +200,8 @@ impl ActorProperties {
         TMessage: Message,
     {
         let status = self.get_status();
+        #[cfg(feature = "verif")]
+        crate::verif::point(crate::verif::pt::SEND_AFTER_STATUS, crate::verif::id_u64(&self.id), status as u64);
         if status >= ActorStatus::Draining {
             // if currently draining, stopping or stopped: reject messages directly.
             return Err(MessagingErr::SendErr(message));
@@ -204,6 +210,14 @@ impl ActorProperties {
         let Some(_admission) = self.try_admit_message() else {
             return Err(MessagingErr::SendErr(message));
         };
+        #[cfg(feature = "verif")]
+        let _verif_after_enqueue = crate::verif::PointOnDrop(
+            crate::verif::pt::SEND_AFTER_ENQUEUE,
+            crate::verif::id_u64(&self.id),
+            0,
+        );
+        #[cfg(feature = "verif")]
+        crate::verif::point(crate::verif::pt::SEND_AFTER_ADMIT, crate::verif::id_u64(&self.id), 0);
         let boxed = message
             .box_message(&self.id)
             .map_err(|_e| MessagingErr::InvalidActorType)?;
@@ -222,6 +236,8 @@ impl ActorProperties {
                 return None;
             }
             debug_assert!(state & MESSAGE_ADMISSION_COUNT_MASK < MESSAGE_ADMISSION_COUNT_MASK);
+            #[cfg(feature = "verif")]
+            crate::verif::point(crate::verif::pt::ADMIT_BEFORE_CAS, crate::verif::id_u64(&self.id), state as u64);
 
             match self.message_admission.compare_exchange_weak(
                 state,
@@ -249,6 +265,8 @@ impl ActorProperties {
             {
                 return Ok(());
             }
+            #[cfg(feature = "verif")]
+            crate::verif::point(crate::verif::pt::MARKER_BEFORE_CAS, crate::verif::id_u64(&self.id), state as u64);
 
             match self.message_admission.compare_exchange_weak(
                 state,
@@ -257,6 +275,8 @@ impl ActorProperties {
                 Ordering::Acquire,
             ) {
                 Ok(_) => {
+                    #[cfg(feature = "verif")]
+                    crate::verif::point(crate::verif::pt::MARKER_AFTER_CAS, crate::verif::id_u64(&self.id), 0);
                     return self
                         .message
                         .send(MuxedMessage::Drain)
@@ -269,6 +289,8 @@ impl ActorProperties {
 
     pub(crate) fn drain(&self) -> Result<(), MessagingErr<()>> {
         self.close_message_admission();
+        #[cfg(feature = "verif")]
+        crate::verif::point(crate::verif::pt::DRAIN_AFTER_CLOSE, crate::verif::id_u64(&self.id), 0);
         let _ = self
             .status
             .fetch_update(Ordering::SeqCst, Ordering::SeqCst, |f| {
@@ -278,6 +300,8 @@ impl ActorProperties {
                     None
                 }
             });
+        #[cfg(feature = "verif")]
+        crate::verif::point(crate::verif::pt::DRAIN_AFTER_STATUS, crate::verif::id_u64(&self.id), 0);
         self.send_drain_marker()
     }
 
@@ -300,6 +324,8 @@ impl ActorProperties {
         let Some(_admission) = self.try_admit_message() else {
             return Err(Box::new(MessagingErr::SendErr(message)));
         };
+        #[cfg(feature = "verif")]
+        crate::verif::point(crate::verif::pt::SERIALIZED_AFTER_ADMIT, crate::verif::id_u64(&self.id), 0);
         let boxed = BoxedMessage {
             msg: None,
             serialized_msg: Some(message),
@@ -320,6 +346,8 @@ impl ActorProperties {
         reason: Option<String>,
     ) -> Result<(), MessagingErr<StopMessage>> {
         let msg = reason.map(StopMessage::Reason).unwrap_or(StopMessage::Stop);
+        #[cfg(feature = "verif")]
+        crate::verif::point(crate::verif::pt::SEND_STOP, crate::verif::id_u64(&self.id), 0);
         self.stop
             .lock()
             .unwrap()
@@ -342,6 +370,8 @@ impl ActorProperties {
     /// Wait for the actor to exit
     pub(crate) async fn wait(&self) {
         let notified = self.wait_handler.notified();
+        #[cfg(feature = "verif")]
+        crate::verif::point(crate::verif::pt::WAIT_AFTER_NOTIFIED, crate::verif::id_u64(&self.id), 0);
         if self.get_status() != ActorStatus::Stopped {
             notified.await;
         }
@@ -359,6 +389,8 @@ impl ActorProperties {
 
     pub(crate) fn notify_stop_listener(&self) {
         self.wait_handler.notify_waiters();
+        #[cfg(feature = "verif")]
+        crate::verif::point(crate::verif::pt::NOTIFY_BETWEEN, crate::verif::id_u64(&self.id), 0);
         // Preserve one permit for a waiter created after the actor stopped.
         self.wait_handler.notify_one();
     }
